@@ -560,6 +560,13 @@ func c17Truncate(c *ev.Ctx, streams [][]c17frame) {
 					fx.close()
 					continue
 				}
+				if socket {
+					// Handle has returned, but over a socket its last replies may
+					// still sit in the receive queue (a pipe hands bytes over
+					// synchronously, a socket does not): let the reader drain it
+					// before anything is counted
+					quiesce.WaitUntil(func() bool { return false }, wd)
+				}
 				// replies for the complete frames ('S' frames are answered
 				// under NOTAG: counted below, not matched by tag)
 				got, want, nS := 0, 0, 0
@@ -574,6 +581,11 @@ func c17Truncate(c *ev.Ctx, streams [][]c17frame) {
 						got++
 					}
 				}
+				// the replies under NOTAG are counted, not awaited by tag: the
+				// peer's reader may have taken the bytes of the last one without
+				// having filed it yet (Handle's return says the bytes were handed
+				// over, no more) - wait until the count is there or nothing moves
+				quiesce.WaitUntil(func() bool { return fx.p.NReplies()-from >= want+nS }, wd)
 				n := fx.p.NReplies() - from
 				if got != want || n < want+nS {
 					det["replies"] = n
